@@ -521,6 +521,8 @@ func (c *compiler) compile(tok *token) []instruction {
 				typ := typeFromToken(c, target.Tokens[0])
 				if slices.Contains([]Type{TypeUint8, TypeInt8, TypeUint32, TypeInt32, TypeFloat64}, typ) {
 					res = append(res, instruction{Code: codeCast, A: reg(typ)})
+				} else if b := typ.base(); b == TypeSlice || b == TypeMap || b == TypeFunc { // var s []int = nil is a nil []int
+					res = append(res, instruction{Code: codeCast, A: reg(typ)})
 				}
 			}
 			res = append(res, instruction{Code: code, A: reg(idx)})
